@@ -151,6 +151,10 @@ def shim(module, names, explicit):
     return None
 
 
+def shim_all(module):
+    return None
+
+
 def shim_defaults(fn, names):
     return None
 
